@@ -227,6 +227,12 @@ def _run_wrappers(c, col):
                         else:
                             col.check(pr.ctx, z3.And(E.exp_term(out) == Lv(target), E.exp_term(d[target]) == Lv(target)), s_, "miss-stores-own-llk", witness=w,
                                       desc="cache miss: returns and stores llk(genotype) under ravel(genotype) (rearranged genotype for the structural variant)")
+    run_calling_dict_cache(col)
+
+
+def run_calling_dict_cache(col):
+    """calling.likelihood.log_likelihood_alleles_cached under insert/lookup histories with int64 keys (shared with C02)"""
+    cl = E.load("mchap.calling.likelihood")
     # calling / pedigree dict caches
     evaluated2 = []
 
@@ -235,26 +241,78 @@ def _run_wrappers(c, col):
         return E.np.log(E.SymReal(z3.Real("LA_" + "_".join(map(str, sorted(int(a) for a in genotype_alleles))))))
 
     cl.log_likelihood_alleles = stub_alleles
-    for al in itertools.product(range(3), repeat=2):
-        def body(ctx):
-            cache = {-1: float("nan")}
+    # Whatever key the wrapper uses, a value served from the cache must be the likelihood of the genotype asked for.  The cache is
+    # an int64-keyed dict as under numba (keys wrap modulo 2^64: + * ** are ring homomorphisms, so wrapping the final key equals
+    # wrapping every intermediate).  Histories: insert g1, then look up g1 in another allele order and every genotype that
+    # differs from g1 in one allele, over an allele set that includes large indices (many known haplotypes).
+    ALLELES = [0, 1, 2, 31, 32, 33, 40, 63, 64, 65]
+    s_ = "mchap.calling.likelihood.log_likelihood_alleles_cached"
+
+    def LA(g):
+        return z3.Real("LA_" + "_".join(map(str, sorted(int(a) for a in g))))
+
+    for P in (2, 3):
+        base = list(itertools.combinations_with_replacement(ALLELES, P))
+
+        def body(ctx, P=P, base=base):
+            g1 = list(base[E.enum_int(ctx, "g1", 0, len(base) - 1)])
+            cache = Int64Dict({-1: float("nan")})
             evaluated2.clear()
-            o1 = cl.log_likelihood_alleles_cached(None, None, None, rnp.array(al), cache=cache)
-            o2 = cl.log_likelihood_alleles_cached(None, None, None, rnp.array(al[::-1]), cache=cache)
-            return o1, o2, list(evaluated2), cache
+            res = [(tuple(g1), cl.log_likelihood_alleles_cached(None, None, None, rnp.array(g1), cache=cache))]
+            res.append((tuple(g1), cl.log_likelihood_alleles_cached(None, None, None, rnp.array(g1[::-1]), cache=cache)))
+            n_eval_same = len(evaluated2)
+            for k in range(P):
+                for a in ALLELES:
+                    if a == g1[k]:
+                        continue
+                    g2 = list(g1)
+                    g2[k] = a
+                    res.append((tuple(g2), cl.log_likelihood_alleles_cached(None, None, None, rnp.array(g2), cache=cache)))
+            res.append((tuple(g1), cl.log_likelihood_alleles_cached(None, None, None, rnp.array(g1), cache=cache)))
+            return res, n_eval_same
 
         for pr in E.explore(body, stats=col.stats):
             if pr.exc is not None:
                 raise pr.exc
             col.path()
-            o1, o2, ev, cache = pr.value
-            key = M.vcf_order(3, 2).index(tuple(sorted(al)))
-            s_ = "mchap.calling.likelihood.log_likelihood_alleles_cached"
-            if ev != [tuple(sorted(al))] or set(cache) != {-1, key}:
-                col.fail(s_, "dict-cache-key", witness=dict(alleles=al, evaluated=ev, keys=[k for k in cache]), desc="calling dict cache: wrong key or recomputation")
+            res, n_eval_same = pr.value
+            wrong = [(g, o) for g, o in res if not z3.is_true(z3.simplify(E.exp_term(o) == LA(g)))]
+            if wrong:
+                g, o = wrong[0]
+                col.fail(s_, "dict-cache-value", witness=dict(first=list(res[0][0]), asked=list(g), ploidy=P), desc="after caching %s the wrapper returns for %s a value that is not that genotype's likelihood (%s)" % (list(res[0][0]), list(g), str(E.exp_term(o))[:60]))
             else:
-                col.check(pr.ctx, z3.And(E.real_term(o1) == E.real_term(o2), E.real_term(cache[key]) == E.real_term(o1)), s_, "dict-cache-value", witness=dict(alleles=al),
-                          desc="calling dict cache keyed by the VCF index of the sorted alleles; second lookup (any allele order) served from the cache")
+                col.check(pr.ctx, z3.And([E.exp_term(o) == LA(g) for g, o in res]), s_, "dict-cache-value", witness=dict(first=list(res[0][0]), ploidy=P),
+                          desc="calling dict cache (int64 keys): every value returned after any of these insert/lookup histories is the likelihood of the genotype asked for, in any allele order")
+
+
+
+
+class Int64Dict(dict):
+    """dict whose integer keys live in int64 (numba's typed dict): two's-complement wrap on every access"""
+
+    @staticmethod
+    def _k(k):
+        if isinstance(k, tuple):
+            return tuple(Int64Dict._k(x) for x in k)
+        if isinstance(k, (int, rnp.integer)):
+            return ((int(k) + 2 ** 63) % 2 ** 64) - 2 ** 63
+        if isinstance(k, E.Sym):
+            return Int64Dict._k(int(k))
+        return k
+
+    def __init__(self, d=()):
+        super().__init__()
+        for k, v in dict(d).items():
+            self[k] = v
+
+    def __setitem__(self, k, v):
+        super().__setitem__(self._k(k), v)
+
+    def __getitem__(self, k):
+        return super().__getitem__(self._k(k))
+
+    def __contains__(self, k):
+        return super().__contains__(self._k(k))
 
 
 # ------------------------------------------------------------------ 2b. cache on / off / tiny (flushing) cache: same move distribution
@@ -546,14 +604,29 @@ def _replay_wrappers(v):
 
     w = v["witness"]
     if "G" not in w:
+        # the same insert / lookup history on the REAL jitted wrapper with a numba typed dict (int64 keys), against fresh values
+        import numba
         from mchap.calling import likelihood as rcl
-        reads = rnp.array([[[0.9, 0.1, 0.3]]])
-        haps = rnp.array([[0], [1], [2]], dtype=rnp.int8)
-        al = rnp.array(w["alleles"])
-        cache = {-1: math.nan}
-        o1 = rcl.log_likelihood_alleles_cached.py_func(reads, rnp.array([1]), haps, al, cache)
-        o2 = rcl.log_likelihood_alleles_cached.py_func(reads, rnp.array([1]), haps, al[::-1].copy(), cache)
-        return o1 != o2 or len(cache) != 2, "o1=%r o2=%r cache=%s" % (o1, o2, cache)
+
+        rs = rnp.random.RandomState(5)
+        n_h = 70
+        haps = rs.randint(0, 2, size=(n_h, 9)).astype(rnp.int8)
+        haps[0] = 0
+        reads = rs.dirichlet([1.0, 1.0], size=(4, 9))
+        counts = rnp.array([1, 2, 1, 3])
+        g1 = [int(a) for a in w.get("first", w.get("alleles", [0, 1]))]
+        P = len(g1)
+        cache = numba.typed.Dict.empty(key_type=numba.types.int64, value_type=numba.types.float64)
+        cache[-1] = math.nan
+        ALLELES = [0, 1, 2, 31, 32, 33, 40, 63, 64, 65]
+        hist = [g1, g1[::-1]] + [g1[:k] + [a] + g1[k + 1:] for k in range(P) for a in ALLELES if a != g1[k]] + [g1]
+        for g in hist:
+            ga = rnp.array(g, dtype=rnp.int64)
+            got = rcl.log_likelihood_alleles_cached(reads, counts, haps, ga, cache)
+            want = rcl.log_likelihood_alleles(reads, counts, haps, rnp.sort(ga))
+            if abs(got - want) > 1e-9 * max(1.0, abs(want)):
+                return True, "after caching %s the real wrapper returns %r for %s, recomputed %r" % (g1, got, g, want)
+        return False, "real wrapper: every value of the history equals the recomputed likelihood"
     G = rnp.array(w["G"], dtype=rnp.int8)
     reads = rnp.array([[[0.9, 0.1], [0.8, 0.2]], [[0.3, 0.7], [0.6, 0.4]]])
     cache = ram.new(4, 2, initial_size=4, max_size=64)
